@@ -145,3 +145,38 @@ package augment
 //@     invariant f.errors.arr == old(f.errors.arr) || fresh(f.errors.arr)
 //@     invariant f.augs.arr == old(f.augs.arr) || fresh(f.augs.arr)
 //@     decreases tokLeft(f)
+
+// ---- rewriting the patch source into valid Go (C08) ------------------------------------------------------
+
+//@ iface Augmentation.Start() (r)
+//@   requires isAug(self)
+//@   ensures r == aStart(self)
+//@   assigns nothing
+//@ iface Augmentation.End() (r)
+//@   requires isAug(self)
+//@   ensures r == aEnd(self)
+//@   assigns nothing
+//@ iface Augmentation.augmentation()
+//@   assigns nothing
+
+// The order handed to the sort: by start offset only.
+//@ func rewrite$1(i, j) (res)
+//@   requires 0 <= i && i < len(augs) && 0 <= j && j < len(augs) && isAug(augs[i]) && isAug(augs[j])
+//@   ensures res == (aStart(augs[i]) < aStart(augs[j]))
+//@   assigns nothing
+
+// Every augmentation is written at its place: the source between two augmentations is copied, so the
+// augmentations must be visited in an order in which none begins before the previous one ended. Sorting by
+// start offset alone gives that only if augmentations with the same start keep their given order (a fake
+// package / func clause in front of an elision that starts the patch).
+//@ func rewrite(src, augs) (out, adjs)
+//@   requires typing: forall i int {augs[i]} :: 0 <= i && i < len(augs) ==> isAug(augs[i]) && 0 <= aStart(augs[i]) && aStart(augs[i]) <= aEnd(augs[i]) && aEnd(augs[i]) <= len(src)
+//@   requires typing: forall i int, j int {augs[i], augs[j]} :: 0 <= i && i < j && j < len(augs) ==> augs[i] != augs[j]
+//@   requires typing: forall i int, j int {augs[i], augs[j]} :: 0 <= i && i < j && j < len(augs) ==> (aStart(augs[i]) <= aStart(augs[j]) ==> aEnd(augs[i]) <= aStart(augs[j])) && (aStart(augs[j]) < aStart(augs[i]) ==> aEnd(augs[j]) <= aStart(augs[i]))
+//@   loop 0
+//@     invariant 0 <= pos && pos <= len(src)
+//@     invariant forall j int {augs[j]} :: 0 <= j && j < len(augs) ==> isAug(augs[j])
+//@     invariant forall j int {augs[j]} :: #k <= j && j < len(augs) ==> pos <= aStart(augs[j]) && aStart(augs[j]) <= aEnd(augs[j]) && aEnd(augs[j]) <= len(src)
+//@     invariant forall i int, j int {augs[i], augs[j]} :: 0 <= i && i < j && j < len(augs) ==> augs[i] != augs[j]
+//@     invariant [C08] no-augmentation-begins-before-an-earlier-one-ended: forall i int, j int {augs[i], augs[j]} :: #k <= i && i < j && j < len(augs) ==> aEnd(augs[i]) <= aStart(augs[j])
+//@     invariant adjustments.arr == 0 || fresh(adjustments.arr)
